@@ -347,13 +347,41 @@ func (r *runner) destCount() int {
 	if r.destTags == "" {
 		return 0
 	}
-	pi, err := r.srv.Parts.GetParitionInfo(r.destTags)
+	return partCount(r.srv, r.destTags)
+}
+
+// chunkCounts reads the confirmed record count of every chunk of the partition straight from the journal (what
+// partition.Service.GetParitionInfo does, without its detour through the time index: polling that from the harness is not
+// part of this property and would interleave TsIndexer.SyncChunks with every write of the scenario).
+func chunkCounts(srv *lrsrv.Srv, tags string) (ids []uint64, counts []int, err error) {
+	src, _, err := srv.TIndex.GetJournal(tags)
+	if err != nil {
+		return nil, nil, err
+	}
+	defer srv.TIndex.Release(src)
+	jrnl, err := srv.Journals.GetOrCreate(context.Background(), src)
+	if err != nil {
+		return nil, nil, err
+	}
+	cks, err := jrnl.Chunks().Chunks(context.Background())
+	if err != nil {
+		return nil, nil, err
+	}
+	for _, c := range cks {
+		ids = append(ids, uint64(c.Id()))
+		counts = append(counts, int(c.Count()))
+	}
+	return ids, counts, nil
+}
+
+func partCount(srv *lrsrv.Srv, tags string) int {
+	_, cs, err := chunkCounts(srv, tags)
 	if err != nil {
 		return 0
 	}
 	n := 0
-	for _, c := range pi.Chunks {
-		n += int(c.Records)
+	for _, c := range cs {
+		n += c
 	}
 	return n
 }
@@ -1095,6 +1123,171 @@ func installWriteHook() {
 	})
 }
 
+func installGateHook(point string) {
+	verifhook.Set(point, func() {
+		gateMu.Lock()
+		g := gates[goid()]
+		gateMu.Unlock()
+		if g != nil {
+			select {
+			case <-g.arrived:
+			default:
+				close(g.arrived)
+				<-g.release
+			}
+		}
+	})
+}
+
+// runIndexRace: regression case of the server panic of repair a2ca477 (fixed by 7ea0278), found by this harness under
+// load: a write is confirmed in the journal while its time-index notification (onWriteCIndex) has not run yet
+// (writer parked at partition.write.beforeCIndex); TsIndexer.SyncChunks (here through GetParitionInfo) runs its first
+// locked section and is parked at tmindex.syncChunks.betweenLocks; the writer is released. a2ca477 had dropped the "grown"
+// entry and left an EMPTY chunk list for the partition in between, so the writer's onWrite indexed [-1] and the server
+// died. Must pass: no panic, both calls return, the source holds every event, the pipe copies every event.
+func runIndexRace(c parkedCase, sec *vh.Section) {
+	dir := lrsrv.NewDir()
+	srv, err := lrsrv.Start(dir, lrsrv.Opts{WriteFlushMs: 2})
+	if err != nil {
+		res.Note("index-race: %v", err)
+		return
+	}
+	clean := true
+	defer func() {
+		if clean { // after a panic inside the index's locked section the server cannot be stopped any more
+			srv.Stop()
+		}
+		os.RemoveAll(dir)
+	}()
+	name, tl := "pix", "app=a1,grp=gx"
+	srv.Exec("create pipe " + name + " from grp=gx")
+	d, _ := srv.Pipes.GetPipe(name)
+	destTags := d.DestTags.Line().String()
+	r := &runner{h: &history{Sources: []map[string]string{{"app": "a1", "grp": "gx"}}}, srv: srv, written: make([][]ev, 1)}
+	e1 := mkEvs("a", 0, c.A)
+	r.write(0, e1, "direct")
+	waitDest(srv, destTags, c.A, 8*time.Second)
+	settle(srv, name, tl, destTags)
+	// writer 2: journal write done (and soon confirmed), index notification held
+	e2 := mkEvs("b", c.A, c.B)
+	g2 := &gate{arrived: make(chan struct{}), release: make(chan struct{})}
+	done2 := make(chan string, 1)
+	ready := make(chan struct{})
+	go func() {
+		gateMu.Lock()
+		gates[goid()] = g2
+		gateMu.Unlock()
+		close(ready)
+		p := vh.Recover(func() {
+			les := make([]model.LogEvent, len(e2))
+			for i, e := range e2 {
+				les[i] = model.LogEvent{Timestamp: e.Ts, Msg: []byte(e.Msg)}
+			}
+			if err := srv.Parts.Write(context.Background(), tl, &litIt{evs: les}, false); err != nil {
+				panic("write failed: " + err.Error())
+			}
+		})
+		gateMu.Lock()
+		delete(gates, goid())
+		gateMu.Unlock()
+		done2 <- p
+	}()
+	<-ready
+	fail := func(kind, impl string) {
+		res.SpecFail(vh.SpecFailure{Section: "parked", Kind: kind, Input: c, Impl: impl, Spec: "no panic; both calls return; source and pipe hold every event",
+			What: "a write whose time-index notification is still pending, overtaken by TsIndexer.SyncChunks between its two locked sections"})
+	}
+	res.Eval(sec, fmt.Sprint(c))
+	res.Dist(sec, c.Variant)
+	select {
+	case <-g2.arrived:
+	case p := <-done2:
+		fail("hook-not-reached", "the writer finished without passing partition.write.beforeCIndex: "+p)
+		return
+	case <-time.After(8 * time.Second):
+		fail("hang", "the writer did not reach partition.write.beforeCIndex")
+		close(g2.release)
+		return
+	}
+	// wait until the second batch is confirmed in the journal: the chunk has "grown" beyond what the index accounts for
+	deadline := time.Now().Add(8 * time.Second)
+	for partCount(srv, tl) < c.A+c.B && time.Now().Before(deadline) {
+		time.Sleep(2 * time.Millisecond)
+	}
+	// SyncChunks: first locked section, then parked
+	g3 := &gate{arrived: make(chan struct{}), release: make(chan struct{})}
+	done3 := make(chan string, 1)
+	ready3 := make(chan struct{})
+	go func() {
+		gateMu.Lock()
+		gates[goid()] = g3
+		gateMu.Unlock()
+		close(ready3)
+		p := vh.Recover(func() { srv.Parts.GetParitionInfo(tl) })
+		gateMu.Lock()
+		delete(gates, goid())
+		gateMu.Unlock()
+		done3 <- p
+	}()
+	<-ready3
+	select {
+	case <-g3.arrived:
+	case <-done3: // nothing to synchronise: it did not pass between the sections (fine, the race window was not entered)
+	case <-time.After(8 * time.Second):
+		fail("hang", "SyncChunks did not reach tmindex.syncChunks.betweenLocks")
+	}
+	// release the writer: its onWrite runs in the window
+	close(g2.release)
+	var p2 string
+	select {
+	case p2 = <-done2:
+	case <-time.After(8 * time.Second):
+		clean = false
+		fail("hang", "the released writer did not return")
+		return
+	}
+	if p2 != "" {
+		clean = false
+		fail("panic", "the writer's index notification panicked (in a server this kills the process): "+p2)
+		return
+	}
+	close(g3.release)
+	select {
+	case p3 := <-done3:
+		if p3 != "" {
+			clean = false
+			fail("panic", "SyncChunks panicked: "+p3)
+			return
+		}
+	case <-time.After(8 * time.Second):
+		clean = false
+		fail("hang", "the released SyncChunks did not return")
+		return
+	}
+	e3 := mkEvs("c", c.A+c.B, 1)
+	r.write(0, e3, "rpc")
+	want := c.A + c.B + 1
+	waitDest(srv, destTags, want, 8*time.Second)
+	settle(srv, name, tl, destTags)
+	src, _ := readAll(srv, "select from {"+tl+"}")
+	dest, _ := readAll(srv, "select from "+destTags)
+	msgs := func(es []*api.LogEvent) string {
+		var m []string
+		for _, e := range es {
+			m = append(m, e.Message)
+		}
+		return strings.Join(m, " ")
+	}
+	var spec []string
+	for _, e := range append(append(append([]ev{}, e1...), e2...), e3...) {
+		spec = append(spec, e.Msg)
+	}
+	if msgs(src) != strings.Join(spec, " ") || msgs(dest) != strings.Join(spec, " ") {
+		res.SpecFail(vh.SpecFailure{Section: "parked", Kind: "lost-event", Input: c, Impl: "source: " + msgs(src) + " | pipe: " + msgs(dest), Spec: strings.Join(spec, " "),
+			What: "after the index race the source partition or the pipe partition does not hold every event once, in order"})
+	}
+}
+
 // parkedWrite starts a direct write in its own goroutine that parks between the journal write and the notification.
 func parkedWrite(srv *lrsrv.Srv, tl string, evs []ev) (g *gate, done chan error) {
 	g = &gate{arrived: make(chan struct{}), release: make(chan struct{})}
@@ -1120,14 +1313,14 @@ func parkedWrite(srv *lrsrv.Srv, tl string, evs []ev) (g *gate, done chan error)
 }
 
 func globalIdx(srv *lrsrv.Srv, tl string, p journal.Pos) int {
-	pi, err := srv.Parts.GetParitionInfo(tl)
+	ids, cs, err := chunkCounts(srv, tl)
 	if err != nil {
 		return -1
 	}
 	n := 0
-	for _, c := range pi.Chunks {
-		if c.Id < p.CId {
-			n += int(c.Records)
+	for i, id := range ids {
+		if id < uint64(p.CId) {
+			n += cs[i]
 		}
 	}
 	return n + int(p.Idx)
@@ -1155,12 +1348,7 @@ func waitDest(srv *lrsrv.Srv, destTags string, n int, d time.Duration) int {
 	deadline := time.Now().Add(d)
 	got := 0
 	for {
-		got = 0
-		if pi, err := srv.Parts.GetParitionInfo(destTags); err == nil {
-			for _, c := range pi.Chunks {
-				got += int(c.Records)
-			}
-		}
+		got = partCount(srv, destTags)
 		if got >= n || time.Now().After(deadline) {
 			return got
 		}
@@ -1170,7 +1358,7 @@ func waitDest(srv *lrsrv.Srv, destTags string, n int, d time.Duration) int {
 
 // settle polls until every descriptor of the pipe is caught up, its descriptor dump and the size of its partition have not
 // changed for a number of consecutive polls (long cap: a loaded machine delays the notificator and the workers).
-func settle(srv *lrsrv.Srv, name, _ string, destTags string) {
+func settle(srv *lrsrv.Srv, name, _ string, destTags string) bool {
 	srv.FlushWait()
 	deadline := time.Now().Add(10 * time.Second)
 	last, stable := "", 0
@@ -1185,7 +1373,7 @@ func settle(srv *lrsrv.Srv, name, _ string, destTags string) {
 		if cur == last && caughtUp(srv, name) {
 			stable++
 			if stable >= 12 {
-				return
+				return true
 			}
 		} else {
 			stable = 0
@@ -1193,6 +1381,7 @@ func settle(srv *lrsrv.Srv, name, _ string, destTags string) {
 		last = cur
 		time.Sleep(20 * time.Millisecond)
 	}
+	return false
 }
 
 func mkEvs(prefix string, from, n int) []ev {
@@ -1243,7 +1432,8 @@ func runParkedWriter(c parkedCase, sec *vh.Section) {
 		e0 := mkEvs("z", 0, 2)
 		r := &runner{h: &history{Sources: []map[string]string{{"app": "a1", "grp": "g1"}}}, srv: srv, written: make([][]ev, 1)}
 		r.write(0, e0, "direct")
-		waitDest(srv, destTags, 2, 3*time.Second)
+		waitDest(srv, destTags, 2, 8*time.Second)
+		settle(srv, name, tl, destTags)
 		step("write 0 "+evsLine(e0), "enqueue 0", "notify", "wopen 0", "wcopy 0 1000000", "wsave 0")
 		pre = 2
 		obs()
@@ -1498,9 +1688,23 @@ func sectionParked(rng *vh.Rng, corpus []parkedCase) {
 		s := sizes[rng.Intn(len(sizes))]
 		ws = append(ws, parkedCase{Variant: "f10", A: s[0], B: s[1]}, parkedCase{Variant: "late-notification", A: s[0], B: s[1]})
 	}
+	// the index race (regression case of the a2ca477 panic): its own hook points, one case at a time
+	installGateHook("partition.write.beforeCIndex")
+	installGateHook("tmindex.syncChunks.betweenLocks")
+	for _, c := range ws {
+		if c.Variant == "index-race" {
+			runIndexRace(c, sec)
+		}
+	}
+	runIndexRace(parkedCase{Variant: "index-race", A: 3, B: 2}, sec)
+	verifhook.Set("partition.write.beforeCIndex", nil)
+	verifhook.Set("tmindex.syncChunks.betweenLocks", nil)
 	var wg sync.WaitGroup
 	sem := make(chan struct{}, 8)
 	for _, c := range ws {
+		if c.Variant == "index-race" {
+			continue
+		}
 		if !strings.HasPrefix(c.Variant, "rearm") {
 			wg.Add(1)
 			sem <- struct{}{}
@@ -1684,7 +1888,12 @@ func runRacingFirst(k int, sec *vh.Section) {
 	}
 	wg.Wait()
 	waitDest(srv, destTags, nsrc*k*3, 1500*time.Millisecond)
-	settle(srv, "rf", "", destTags)
+	if !settle(srv, "rf", "", destTags) {
+		// the machine is too busy to tell a finished copy from an unfinished one: no verdict on this case
+		res.Dist(sec, "racing-first: inconclusive (not settled within 10 s)")
+		res.Note("stress: a racing-first case did not settle within 10 s (machine load) — no verdict")
+		return
+	}
 	dest, _ := readAll(srv, "select from "+destTags)
 	got := map[string]int{}
 	for _, e := range dest {
@@ -1692,6 +1901,7 @@ func runRacingFirst(k int, sec *vh.Section) {
 	}
 	// stored order of the batches per source: the class of F10 loses only batches stored before the first copied one
 	prefixOnly := true
+	detail := []string{}
 	for s := 0; s < nsrc; s++ {
 		stored, _ := readAll(srv, fmt.Sprintf("select from {app=r%d,grp=g1}", s))
 		seenCopied := false
@@ -1702,6 +1912,9 @@ func runRacingFirst(k int, sec *vh.Section) {
 				seenCopied, anyCopied = true, true
 			} else if seenCopied {
 				prefixOnly = false
+			}
+			if len(detail) == 0 || detail[len(detail)-1] != fmt.Sprintf("%s:%d", k, got[k]) {
+				detail = append(detail, fmt.Sprintf("%s:%d", k, got[k]))
 			}
 		}
 		if !anyCopied {
@@ -1732,7 +1945,7 @@ func runRacingFirst(k int, sec *vh.Section) {
 		if prefixOnly {
 			finding = "F10"
 		}
-		res.SpecFail(vh.SpecFailure{Section: "stress", Kind: "lost-first-batch", Input: map[string]interface{}{"writers": k, "missing": missing}, Impl: fmt.Sprint(len(dest)), Spec: fmt.Sprint(nsrc * k * 3),
+		res.SpecFail(vh.SpecFailure{Section: "stress", Kind: "lost-first-batch", Input: map[string]interface{}{"writers": k, "missing": missing}, Impl: fmt.Sprintf("%d events; batches in stored order with the number of their events copied: %v", len(dest), detail), Spec: fmt.Sprint(nsrc * k * 3),
 			ImplEqModel: prefixOnly, Finding: finding, What: "racing first writes to a new source: a whole first batch of one writer is never copied"})
 	}
 }
@@ -1852,7 +2065,11 @@ func replay(path string) {
 		var c parkedCase
 		json.Unmarshal(d.Input, &c)
 		sec := res.Section("parked", "replay", "replay of one parked schedule")
-		if strings.HasPrefix(c.Variant, "rearm") {
+		if c.Variant == "index-race" {
+			installGateHook("partition.write.beforeCIndex")
+			installGateHook("tmindex.syncChunks.betweenLocks")
+			runIndexRace(c, sec)
+		} else if strings.HasPrefix(c.Variant, "rearm") {
 			runRearm([]parkedCase{c}, sec)
 		} else {
 			installWriteHook()
